@@ -10,7 +10,7 @@ Inductive skel : Type :=
 | KIf (bs : list (Z * list skel)) (els : list skel)
 | KWhile (c : Z) (b : list skel)
 | KFor (x : ident) (c : Z) (b : list skel)
-| KBreak | KWrite (id : Z) | KSleep (id : Z) | KExprS (id : Z).
+| KBreak | KContinue | KWrite (id : Z) | KSleep (id : Z) | KExprS (id : Z).
 
 Fixpoint skel_cn (n : cnode) : list skel :=
   let fix go (l : list cnode) : list skel := match l with [] => [] | x :: r => skel_cn x ++ go r end in
@@ -20,7 +20,7 @@ Fixpoint skel_cn (n : cnode) : list skel :=
   | NIf bs els => [KIf (gob bs) (go els)]
   | NWhile c b => [KWhile c (go b)]
   | NFor x c b => [KFor x c (go b)]
-  | NBreak => [KBreak] | NWrite id => [KWrite id] | NSleep id => [KSleep id] | NExprS id => [KExprS id]
+  | NBreak => [KBreak] | NContinue | NReturn => [KContinue] | NWrite id => [KWrite id] | NSleep id => [KSleep id] | NExprS id => [KExprS id]
   | NDecl _ _ _ _ | NDeclTmp _ _ _ | NAssign _ _ => []
   end.
 Fixpoint skel_c (l : list cnode) : list skel := match l with [] => [] | x :: r => skel_cn x ++ skel_c r end.
@@ -35,7 +35,7 @@ Fixpoint skel_pn (p : pstmt) : list skel :=
   | PIf c body elifs els => [KIf ((a_id c, go body) :: gob elifs) (go els)]
   | PWhile c b => [KWhile (a_id c) (go b)]
   | PFor x c b => [KFor x (a_id c) (go b)]
-  | PBreak => [KBreak] | PWrite e => [KWrite (a_id e)] | PSleep e => [KSleep (a_id e)]
+  | PBreak => [KBreak] | PContinue => [KContinue] | PWrite e => [KWrite (a_id e)] | PSleep e => [KSleep (a_id e)]
   | PExprS e => if closed_const e then [] else [KExprS (a_id e)]
   | PAssign _ _ | PAug _ _ _ _ | PTuple _ _ => []
   end.
@@ -48,7 +48,7 @@ Lemma skel_cn_unfold n :
               | NIf bs els => [KIf (skel_cb bs) (skel_c els)]
               | NWhile c b => [KWhile c (skel_c b)]
               | NFor x c b => [KFor x c (skel_c b)]
-              | NBreak => [KBreak] | NWrite id => [KWrite id] | NSleep id => [KSleep id] | NExprS id => [KExprS id]
+              | NBreak => [KBreak] | NContinue | NReturn => [KContinue] | NWrite id => [KWrite id] | NSleep id => [KSleep id] | NExprS id => [KExprS id]
               | _ => [] end.
 Proof.
   assert (G : forall l, (fix go (l : list cnode) : list skel := match l with [] => [] | x :: r => skel_cn x ++ go r end) l = skel_c l).
@@ -63,7 +63,7 @@ Lemma skel_pn_unfold p :
               | PIf c body elifs els => [KIf ((a_id c, skel_p body) :: skel_pb elifs) (skel_p els)]
               | PWhile c b => [KWhile (a_id c) (skel_p b)]
               | PFor x c b => [KFor x (a_id c) (skel_p b)]
-              | PBreak => [KBreak] | PWrite e => [KWrite (a_id e)] | PSleep e => [KSleep (a_id e)]
+              | PBreak => [KBreak] | PContinue => [KContinue] | PWrite e => [KWrite (a_id e)] | PSleep e => [KSleep (a_id e)]
               | PExprS e => if closed_const e then [] else [KExprS (a_id e)]
               | _ => [] end.
 Proof.
@@ -87,6 +87,8 @@ Section CInd.
   Hypothesis HWhile : forall c b, Forall P b -> P (NWhile c b).
   Hypothesis HFor : forall x c b, Forall P b -> P (NFor x c b).
   Hypothesis HBreak : P NBreak.
+  Hypothesis HContinue : P NContinue.
+  Hypothesis HReturn : P NReturn.
   Hypothesis HWrite : forall i, P (NWrite i).
   Hypothesis HSleep : forall i, P (NSleep i).
   Hypothesis HExprS : forall i, P (NExprS i).
@@ -99,7 +101,7 @@ Section CInd.
     | NDecl x t i g => HDecl x t i g | NDeclTmp k t i => HTmp k t i | NAssign x e => HAssign x e
     | NIf bs els => HIf bs els (gob bs) (go els)
     | NWhile c b => HWhile c b (go b) | NFor x c b => HFor x c b (go b)
-    | NBreak => HBreak | NWrite i => HWrite i | NSleep i => HSleep i | NExprS i => HExprS i
+    | NBreak => HBreak | NContinue => HContinue | NReturn => HReturn | NWrite i => HWrite i | NSleep i => HSleep i | NExprS i => HExprS i
     end.
 End CInd.
 
@@ -280,6 +282,10 @@ Proof.
     destruct ld as [|[|ld']]; [discriminate| |].
     + destruct ml; [discriminate|]. eapply K; [exact H|reflexivity].
     + eapply K; [exact H|reflexivity].
+  - (* PContinue *)
+    destruct ld as [|[|ld']]; [discriminate| |].
+    + destruct ml; eapply K; [exact H|reflexivity|exact H|reflexivity].
+    + eapply K; [exact H|reflexivity].
   - eapply K; [exact H|reflexivity].
   - eapply K; [exact H|reflexivity].
   - rewrite skel_pn_unfold in K. destruct (closed_const e); eapply K; [exact H|reflexivity|exact H|reflexivity].
@@ -329,3 +335,26 @@ Proof.
     intros f' s2. destruct f' as [|f']; [reflexivity|]. cbn [tr_block].
     destruct f' as [|f'']; [reflexivity|]. cbn. reflexivity.
 Qed.
+
+(* `continue` placement: outside every loop it is rejected (also under an if); directly in the body
+   of the main loop it becomes `return;`, inside a for/while loop `continue;` *)
+Theorem continue_guard : forall pre rest main,
+  transl {| p_pre := PContinue :: rest; p_main := main |} = None /\
+  (forall c e, transl {| p_pre := pre ++ [PIf c [PContinue] [] e]; p_main := main |} = None).
+Proof.
+  intros pre rest main. split.
+  - unfold transl; cbn [p_pre p_main]. unfold bsize. cbn. reflexivity.
+  - intros c e. unfold transl; cbn [p_pre p_main].
+    rewrite tr_block_app_none; [reflexivity|].
+    intros f' s2. destruct f' as [|f']; [reflexivity|]. cbn [tr_block].
+    destruct f' as [|f'']; [reflexivity|]. cbn. reflexivity.
+Qed.
+
+Theorem continue_translation : forall cnt e, let x := [107] in
+  transl {| p_pre := []; p_main := Some [PContinue] |}
+    = Some {| c_globals := []; c_setup := []; c_loop := [NReturn] |} /\
+  transl {| p_pre := []; p_main := Some [PFor x cnt [PContinue]; PWrite e] |}
+    = Some {| c_globals := []; c_setup := []; c_loop := [NFor x (a_id cnt) [NContinue]; NWrite (a_id e)] |} /\
+  transl {| p_pre := [PWhile cnt [PContinue]]; p_main := None |}
+    = Some {| c_globals := []; c_setup := [NWhile (a_id cnt) [NContinue]]; c_loop := [] |}.
+Proof. intros cnt e x. subst x. repeat split; vm_compute; reflexivity. Qed.
